@@ -142,7 +142,13 @@ def handle (j : J) : J :=
                  ("default", J.ofStrs (F.defaultArgs.map t.name)),
                  ("nondefault", J.ofStrs (F.nonDefaultArgs.map t.name)),
                  ("call", outcomeToJ t (functorCall fix29 F c2.call c2.override c2.ignore)),
-                 ("call0", outcomeToJ t (functorCall fix29 F Call.empty none none))] ++ common)
+                 ("call0", outcomeToJ t (functorCall fix29 F Call.empty none none)),
+                 ("json_init_args", reportedToJ t (symInitArgs F.jsonRoundTrip)),
+                 ("json_call0", outcomeToJ t (functorCall fix29 F.jsonRoundTrip Call.empty none none)),
+                 ("json_specified", J.ofStrs (F.jsonRoundTrip.specified.map t.name)),
+                 ("json_default", J.ofStrs (F.jsonRoundTrip.defaultArgs.map t.name)),
+                 ("json_nondefault", J.ofStrs (F.jsonRoundTrip.nonDefaultArgs.map t.name)),
+                 ("clone_call", outcomeToJ t (functorCall fix29 F.clone c2.call c2.override c2.ignore))] ++ common)
     | _ => bad "kind"
   | _, _ => bad "sig/c1"
 
